@@ -114,7 +114,7 @@ func buildPkg(c rtPkg) *extractor.Package {
 }
 
 // roundTrip exports pkgs in the format into dir and scans the produced file.
-func roundTrip(dir, format, via string, pkgs []*extractor.Package) rtObs {
+func roundTrip(idx int, dir, format, via string, pkgs []*extractor.Package) rtObs {
 	o := rtObs{Format: format, Ref: []*purlRec{}, Reimported: []*purlRec{}, RefStr: []string{}, ReimpStr: []string{}, RefName: []string{}}
 	name, ok := sbomFileName[format]
 	if !ok {
@@ -152,6 +152,11 @@ func roundTrip(dir, format, via string, pkgs []*extractor.Package) rtObs {
 		_ = os.Remove(filepath.Join(dir, other))
 	}
 	path := filepath.Join(dir, name)
+	// every other export goes to a path that already holds a (longer) file, as when a scan is run again with the
+	// same output flag: the writer must replace it
+	if idx%2 == 1 {
+		_ = os.WriteFile(path, bytes.Repeat([]byte("stale export, must not survive\n"), 4096), 0o644)
+	}
 	now := time.Now()
 	res := &scalibr.ScanResult{Version: "verif", StartTime: now, EndTime: now,
 		Status:    &plugin.ScanStatus{Status: plugin.ScanStatusSucceeded},
@@ -302,7 +307,7 @@ func init() {
 				pkgs = append(pkgs, buildPkg(cp))
 			}
 			d := pool.get()
-			o := roundTrip(d, c.Format, via, pkgs)
+			o := roundTrip(idx, d, c.Format, via, pkgs)
 			pool.put(d)
 			o.I = idx
 			return o, nil
@@ -378,7 +383,7 @@ func init() {
 				return nil, err
 			}
 			d := pool.get()
-			o := roundTrip(d, c.Format, e.Args["via"], invs[c.Inv].pkgs)
+			o := roundTrip(idx, d, c.Format, e.Args["via"], invs[c.Inv].pkgs)
 			pool.put(d)
 			o.I = idx
 			exts := []string{}
